@@ -258,7 +258,10 @@ func (pm *ProtocolManager) handleMsg(p *peer) error {
 		}
 		if last == nil {
 			last = pm.chainman.CurrentBlock()
-			request.Amount = last.Height - request.Number + 1
+			// never more than what was requested (and limited above)
+			if amount := last.Height - request.Number + 1; amount < request.Amount {
+				request.Amount = amount
+			}
 		}
 		if last.Height < request.Number {
 			return p.SendBlockHashes(nil)
